@@ -239,6 +239,9 @@ def _history(k, kinds, names, vals, via=0, nboot=0):
                 # live mapping object of its name; the statement only rules out expired/dropped ones
                 if not (a.name in model and am.addr.get(a.name) is a):
                     return 'expired-or-replaced-mapping-still-found-by-address: step %d address %s' % (i, ipx)
+        for ev in rec.log:
+            if ev[1] not in NAMES:
+                return 'listener-told-about-something-that-is-not-the-name-in-the-line: %r' % (ev,)
         for n in NAMES:
             got_a = sum(1 for ev in rec.log if ev == ('added', n))
             got_e = sum(1 for ev in rec.log if ev == ('expired', n))
